@@ -181,7 +181,7 @@ pub fn loud_case(rng: &mut Rng, max_samples: usize) -> Case {
     let mut chans = vec![];
     let mut recipe = String::new();
     for _ in 0..channels {
-        let fam = *rng.pick(&["noise_full", "laplace", "alt2", "alt7", "sine_loud_noise", "integrated", "loud_then_quiet", "sine_clipped", "impulse_mid", "step"]);
+        let fam = *rng.pick(&["noise_full", "laplace", "alt2", "alt7", "sine_loud_noise", "integrated", "loud_then_quiet", "sine_clipped", "impulse_mid", "step", "alt_level", "alt_level"]);
         recipe.push_str(fam);
         recipe.push('+');
         chans.push(gen::gen_channel(rng, fam, bps, len));
